@@ -67,6 +67,7 @@ pub fn metric_of(m: u8) -> kyrodb_engine::config::DistanceMetric {
 pub const HEADER: &str = "From Coq Require Import QArith List NArith ZArith Bool Arith.\nFrom Kyro Require Import Model.QCache.\nImport ListNotations.\nOpen Scope Q_scope.\nDefinition vz (e : nat) (l : list Z) : vec := map (fun m => Qmake m (Pos.shiftl_nat 1 e)) l.\n";
 
 fn main() {
+    kvh::panicrec::install();
     let args: Vec<String> = std::env::args().collect();
     let mut out = String::from("/verif/.cache/run/C07");
     let mut n = 500usize;
